@@ -6,6 +6,7 @@
 import RenetVerif.Generated.Src.Packet
 import RenetVerif.Lemmas.SrcEquiv.Prims
 import RenetVerif.Lemmas.SrcEquiv.CommonRepr
+set_option linter.unusedSimpArgs false
 namespace RenetVerif.SrcEquiv
 open RenetVerif RenetVerif.RustSem
 
@@ -227,6 +228,13 @@ theorem W_chain {ρ β} {b : OctetsMut} (xs ys : List Nat) (f g : OctetsMut → 
 
 abbrev conv := @SerializationError.from_BufferTooShortError SSerErr
 
+/-- `put_…(..)?` / `get_…(..)?` on an octets method that fails without touching the cursor: with the error state
+    forgotten it is the plain conversion of the error -/
+theorem cf_forget {ρ α σ : Type} (st : σ) (r : Res BufferTooShortError α) :
+    (Exec.callFrom (fun err => Res.bind (SerializationError.from_BufferTooShortError err) (fun e' => Res.ok (e', st))) r :
+      Exec (SSerErr × σ) ρ α).forget = Exec.callFrom conv r := by
+  cases r <;> rfl
+
 theorem step_varint {ρ β} {b : OctetsMut} {v : Nat} (hv : v ≤ Varint.MAX) (xs : List Nat)
     (k : OctetsMut × Unit → Exec SSerErr ρ β) :
     (W b xs).bind (fun b' => (Exec.callFrom conv (OctetsMut.put_varint b' v)).bind k)
@@ -407,7 +415,7 @@ theorem ack_loop {ρ β} (rest : List AckRange)
     simp [toNats, lastStart, List.append_assoc]
 
 theorem to_bytes_eq (p : RenetVerif.Packet) (b : OctetsMut) (hb : OInv b) (bytes : Bytes) (henc : p.enc = .ok bytes) :
-    Src.renet.packet.Packet.to_bytes (reprPacket p) b = finish b (toNats bytes) := by
+    (Src.renet.packet.Packet.to_bytes (reprPacket p) b).forget = finish b (toNats bytes) := by
   cases p with
   | reliableSlice seq ch sl =>
     unfold Packet.enc at henc
@@ -426,6 +434,9 @@ theorem to_bytes_eq (p : RenetVerif.Packet) (b : OctetsMut) (hb : OInv b) (bytes
     cases hbody; cases h
     unfold Src.renet.packet.Packet.to_bytes
     simp only [reprPacket, reprSlice, Exec.bind_eq, Exec.pure_eq]
+    rw [Exec.forget_run]
+    simp only [Exec.forget_bind, Exec.forget_val, Exec.forget_ret, Exec.forget_ite, forEach_forget, forRange_forget, cf_forget,
+      forget_add, forget_sub, forget_mul, forget_unwrap, forget_index]
     rw [W_start hb (fun b' => (Exec.callFrom SerializationError.from_BufferTooShortError (OctetsMut.put_u8 b' 2)).bind _)]
     simp only [cast64_of_le_max hv2, cast64_of_le_max hv3, cast64_of_le_max hv4, len_toNats,
       step_u8, step_varint hv0, step_varint hv1, step_varint hv2, step_varint hv3, step_varint hv4, step_bytes,
@@ -442,6 +453,9 @@ theorem to_bytes_eq (p : RenetVerif.Packet) (b : OctetsMut) (hb : OInv b) (bytes
     cases h
     unfold Src.renet.packet.Packet.to_bytes
     simp only [reprPacket, Exec.bind_eq, Exec.pure_eq]
+    rw [Exec.forget_run]
+    simp only [Exec.forget_bind, Exec.forget_val, Exec.forget_ret, Exec.forget_ite, forEach_forget, forRange_forget, cf_forget,
+      forget_add, forget_sub, forget_mul, forget_unwrap, forget_index]
     rw [W_start hb (fun b' => (Exec.callFrom SerializationError.from_BufferTooShortError (OctetsMut.put_u8 b' 0)).bind _)]
     simp only [step_u8, step_u16, step_varint hv0, Exec.bind_assoc']
     rw [forEach_chain _ (fun x => toNats (Varint.enc x.1) ++ toNats (Varint.enc x.2.length) ++ x.2)]
@@ -466,6 +480,9 @@ theorem to_bytes_eq (p : RenetVerif.Packet) (b : OctetsMut) (hb : OInv b) (bytes
     cases h
     unfold Src.renet.packet.Packet.to_bytes
     simp only [reprPacket, Exec.bind_eq, Exec.pure_eq]
+    rw [Exec.forget_run]
+    simp only [Exec.forget_bind, Exec.forget_val, Exec.forget_ret, Exec.forget_ite, forEach_forget, forRange_forget, cf_forget,
+      forget_add, forget_sub, forget_mul, forget_unwrap, forget_index]
     rw [W_start hb (fun b' => (Exec.callFrom SerializationError.from_BufferTooShortError (OctetsMut.put_u8 b' 1)).bind _)]
     simp only [step_u8, step_u16, step_varint hv0, Exec.bind_assoc']
     rw [forEach_chain _ (fun x => toNats (Varint.enc x.length) ++ x)]
@@ -498,6 +515,9 @@ theorem to_bytes_eq (p : RenetVerif.Packet) (b : OctetsMut) (hb : OInv b) (bytes
     cases hbody; cases h
     unfold Src.renet.packet.Packet.to_bytes
     simp only [reprPacket, reprSlice, Exec.bind_eq, Exec.pure_eq]
+    rw [Exec.forget_run]
+    simp only [Exec.forget_bind, Exec.forget_val, Exec.forget_ret, Exec.forget_ite, forEach_forget, forRange_forget, cf_forget,
+      forget_add, forget_sub, forget_mul, forget_unwrap, forget_index]
     rw [W_start hb (fun b' => (Exec.callFrom SerializationError.from_BufferTooShortError (OctetsMut.put_u8 b' 3)).bind _)]
     simp only [cast64_of_le_max hv2, cast64_of_le_max hv3, cast64_of_le_max hv4, len_toNats,
       step_u8, step_varint hv0, step_varint hv1, step_varint hv2, step_varint hv3, step_varint hv4, step_bytes,
@@ -531,6 +551,9 @@ theorem to_bytes_eq (p : RenetVerif.Packet) (b : OctetsMut) (hb : OInv b) (bytes
       have hrev' : (ranges.map reprRange).reverse = reprRange (ls, le) :: rest.map reprRange := by
         rw [← List.map_reverse, hrev]; rfl
       simp only [reprPacket, Exec.bind_eq, Exec.pure_eq, hrev', List.head?_cons, List.tail_cons, RustSem.unwrap, reprRange]
+      rw [Exec.forget_run]
+      simp only [Exec.forget_bind, Exec.forget_val, Exec.forget_ret, Exec.forget_ite, forEach_forget, forRange_forget, cf_forget,
+        forget_add, forget_sub, forget_mul, forget_unwrap, forget_index]
       rw [W_start hb (fun b' => (Exec.callFrom SerializationError.from_BufferTooShortError (OctetsMut.put_u8 b' 4)).bind _)]
       have hl : RustSem.len (List.map reprRange rest) = rest.length := by
         simp [RustSem.len]
@@ -794,7 +817,7 @@ theorem getBytesVar_err {rest : Bytes} {e : SerErr} (h : getBytesVar rest = .err
     · cases h
 
 theorem get_bytes_var_raw {rest buf : Bytes} (h : rest <:+ buf) :
-    Octets.get_bytes_with_varint_length (cur buf rest) =
+    (Octets.get_bytes_with_varint_length (cur buf rest)).forget =
       RdRaw getBytesVar (fun m => (⟨toNats m, 0⟩ : Octets)) buf rest := by
   unfold Octets.get_bytes_with_varint_length
   rw [get_varint_raw h]
@@ -809,9 +832,9 @@ theorem get_bytes_var_raw {rest buf : Bytes} (h : rest <:+ buf) :
     unfold Octets.get_bytes
     rw [cur_cap hs1, Nat.mod_eq_of_lt (Nat.lt_trans hlt (by decide))]
     by_cases hl : r1.length < len
-    · rw [if_pos hl, if_pos hl]
+    · rw [if_pos hl, if_pos hl]; rfl
     · rw [if_neg hl, if_neg hl]
-      simp only
+      simp only [Res.forget]
       rw [cur_advance hs1 len (by omega), cur_drop hs1]
       congr 3
       simp [toNats, List.map_take]
@@ -825,8 +848,14 @@ theorem get_u16_cur {ρ} {rest buf : Bytes} (h : rest <:+ buf) :
 theorem get_varint_cur {ρ} {rest buf : Bytes} (h : rest <:+ buf) :
     (Exec.callFrom conv (Octets.get_varint (cur buf rest)) : Exec SSerErr ρ _) = Rd getVarint id buf rest := by
   rw [get_varint_raw h, callFrom_RdRaw _ _ _ _ (fun e he => getVarint_err he)]
+/-- `callee(..)?` for the octets method whose error carries the advanced cursor -/
+theorem cf_forget_state {ρ α σ τ : Type} (F : BufferTooShortError × τ → σ) (r : Res (BufferTooShortError × τ) α) :
+    (Exec.callFrom (fun err => Res.bind (SerializationError.from_BufferTooShortError err.1) (fun e' => Res.ok (e', F err))) r :
+      Exec (SSerErr × σ) ρ α).forget = Exec.callFrom conv r.forget := by
+  cases r <;> rfl
+
 theorem get_bytes_var_cur {ρ} {rest buf : Bytes} (h : rest <:+ buf) :
-    (Exec.callFrom conv (Octets.get_bytes_with_varint_length (cur buf rest)) : Exec SSerErr ρ _)
+    (Exec.callFrom conv (Octets.get_bytes_with_varint_length (cur buf rest)).forget : Exec SSerErr ρ _)
       = Rd getBytesVar (fun m => (⟨toNats m, 0⟩ : Octets)) buf rest := by
   rw [get_bytes_var_raw h, callFrom_RdRaw _ _ _ _ (fun e he => getBytesVar_err he)]
 
@@ -1077,9 +1106,11 @@ theorem loop_ack {ρ β : Type} (buf : Bytes)
         (by simp [hacc])
 
 theorem from_bytes_eq (buf rest : Bytes) (hs : rest <:+ buf) :
-    Src.renet.packet.Packet.from_bytes (cur buf rest) = fromModel buf (Packet.decode rest) := by
+    (Src.renet.packet.Packet.from_bytes (cur buf rest)).forget = fromModel buf (Packet.decode rest) := by
   unfold Src.renet.packet.Packet.from_bytes Packet.decode
   simp only [Exec.bind_eq, Exec.pure_eq]
+  rw [Exec.forget_run]
+  simp only [Exec.forget_bind, cf_forget]
   rw [get_u8_cur hs]
   refine rd_step _ _ _ _ _ _ (fun ty r0 h0 => ?_)
   have hs0 := (getU8_suffix h0).1.trans hs
@@ -1087,6 +1118,8 @@ theorem from_bytes_eq (buf rest : Bytes) (hs : rest <:+ buf) :
   match ty with
   | 3 =>
     simp only
+    simp only [Exec.forget_bind, Exec.forget_val, Exec.forget_ret, Exec.forget_err, Exec.forget_ite, forRange_forget, cf_forget,
+      cf_forget_state, forget_add, forget_sub]
     rw [get_varint_cur hs0]; refine rd_step _ _ _ _ _ _ (fun seq r1 h1 => ?_)
     have hs1 := (getVarint_suffix h1).1.trans hs0
     rw [get_u8_cur hs1]; refine rd_step _ _ _ _ _ _ (fun ch r2 h2 => ?_)
@@ -1107,6 +1140,8 @@ theorem from_bytes_eq (buf rest : Bytes) (hs : rest <:+ buf) :
       simp only [Exec.run_val, Octets.to_vec, List.drop_zero]; rfl
   | 2 =>
     simp only
+    simp only [Exec.forget_bind, Exec.forget_val, Exec.forget_ret, Exec.forget_err, Exec.forget_ite, forRange_forget, cf_forget,
+      cf_forget_state, forget_add, forget_sub]
     rw [get_varint_cur hs0]; refine rd_step _ _ _ _ _ _ (fun seq r1 h1 => ?_)
     have hs1 := (getVarint_suffix h1).1.trans hs0
     rw [get_u8_cur hs1]; refine rd_step _ _ _ _ _ _ (fun ch r2 h2 => ?_)
@@ -1137,6 +1172,8 @@ theorem from_bytes_eq (buf rest : Bytes) (hs : rest <:+ buf) :
   | n + 5 => rfl
   | 0 =>
     simp only
+    simp only [Exec.forget_bind, Exec.forget_val, Exec.forget_ret, Exec.forget_err, Exec.forget_ite, forRange_forget, cf_forget,
+      cf_forget_state, forget_add, forget_sub]
     rw [get_varint_cur hs0]; refine rd_step _ _ _ _ _ _ (fun seq r1 h1 => ?_)
     have hs1 := (getVarint_suffix h1).1.trans hs0
     rw [get_u8_cur hs1]; refine rd_step _ _ _ _ _ _ (fun ch r2 h2 => ?_)
@@ -1168,6 +1205,8 @@ theorem from_bytes_eq (buf rest : Bytes) (hs : rest <:+ buf) :
     | ok z => obtain ⟨l, r4⟩ := z; simp only [Exec.bind_val', Exec.run_val, List.nil_append, ebind_ok]; rfl
   | 1 =>
     simp only
+    simp only [Exec.forget_bind, Exec.forget_val, Exec.forget_ret, Exec.forget_err, Exec.forget_ite, forRange_forget, cf_forget,
+      cf_forget_state, forget_add, forget_sub]
     rw [get_varint_cur hs0]; refine rd_step _ _ _ _ _ _ (fun seq r1 h1 => ?_)
     have hs1 := (getVarint_suffix h1).1.trans hs0
     rw [get_u8_cur hs1]; refine rd_step _ _ _ _ _ _ (fun ch r2 h2 => ?_)
@@ -1191,6 +1230,8 @@ theorem from_bytes_eq (buf rest : Bytes) (hs : rest <:+ buf) :
     | ok z => obtain ⟨l, r4⟩ := z; simp only [Exec.bind_val', Exec.run_val, List.nil_append, ebind_ok]; rfl
   | 4 =>
     simp only
+    simp only [Exec.forget_bind, Exec.forget_val, Exec.forget_ret, Exec.forget_err, Exec.forget_ite, forRange_forget, cf_forget,
+      cf_forget_state, forget_add, forget_sub]
     rw [get_varint_cur hs0]; refine rd_step _ _ _ _ _ _ (fun seq r1 h1 => ?_)
     have hs1 := (getVarint_suffix h1).1.trans hs0
     rw [get_varint_cur hs1]; refine rd_step _ _ _ _ _ _ (fun fe r2 h2 => ?_)
